@@ -6,6 +6,7 @@
         subdel D D2 | copyout D | copyin D | quote K | reset |
         yamlrt      (C14: aux := import (ideal_rt (export root)); prints both digests)
         yamltree    (C14: prints the abstract YAML tree the model exports for root)
+        yamlinto    (C14: aux := import_document (ideal_rt (export root)) aux, aux may hold a tree)
    The conversions below (int <-> extracted N / Z / nat, hex) are trusted glue. *)
 open MODELS
 let rec pos_of_int n = if n = 1 then XH else if n land 1 = 0 then XO (pos_of_int (n lsr 1)) else XI (pos_of_int (n lsr 1))
@@ -52,6 +53,11 @@ let () =
         let y = yaml_export !st.st_root in
         let (r, ok) = yaml_import (yaml_rt_ideal y) NNull in
         Printf.printf "%d 0 T:%s %s %s\n" (if ok then 0 else -1) (digest r) (digest !st.st_root) (digest !st.st_aux)
+      | ["yamlinto"] | ["yamlintof"] ->
+        let y = yaml_export !st.st_root in
+        let (r, ok) = import_document (yaml_rt_ideal y) !st.st_aux in
+        st := { st_root = !st.st_root; st_aux = r };
+        Printf.printf "%d 0 - %s %s\n" (if ok then 0 else -1) (digest !st.st_root) (digest r)
       | ["yamltree"] -> Printf.printf "0 0 Y:%s %s %s\n" (ydigest (yaml_export !st.st_root)) (digest !st.st_root) (digest !st.st_aux)
       | opn :: args ->
         let a i = unhex (List.nth args i) in
